@@ -99,6 +99,9 @@ class CR:
             nx, ny = (_node(b), a.n) if swap else (a.n, _node(b))
             if isinstance(x, float) or isinstance(y, float):
                 x, y = float(x), float(y)
+            elif nx.op == 'const' and ny.op == 'const':
+                v = f(x, y)
+                return CR(v, lift(v))          # exact constant folding (Fractions)
             return CR(f(x, y), Node(op, nx, ny))
         return _tensor_bin(a, b, op, swap)
 
@@ -110,7 +113,7 @@ class CR:
     def __rmul__(a, b): return a._bin(b, 'mul', lambda x, y: x * y, True)
     def __truediv__(a, b): return a._bin(b, 'div', _div)
     def __rtruediv__(a, b): return a._bin(b, 'div', _div, True)
-    def __neg__(a): return CR(-a.v, Node('neg', a.n))
+    def __neg__(a): return CR(-a.v, lift(-a.v) if (a.n.op == 'const' and not isinstance(a.v, float)) else Node('neg', a.n))
     def __pos__(a): return a
     def __abs__(a): return CR(abs(a.v), Node('abs', a.n))
 
@@ -303,6 +306,7 @@ class Engine:
         self.zmemo = {}
         self.path_log = []         # per completed path: dict(inputs=..., branches=n)
         self.uf_axioms = {}
+        self._cur_timeout = timeout_ms
 
     # ------------------------------------------------------------ z3 plumbing
     def zenv(self, name):
@@ -323,8 +327,9 @@ class Engine:
         return r, side
 
     def _check(self, solver):
+        from .core import z3_check
         t = time.time()
-        r = solver.check()
+        r = z3_check(solver, self._cur_timeout)
         dt = time.time() - t
         self.stats['solver_s'] += dt
         self.stats['queries'] += 1
